@@ -114,3 +114,16 @@ Section Spec.
     | _, _ => norm U fuel (fst (resp_ty U0 i m)) ret
     end.
 End Spec.
+
+(** a document that denotes [e] and carries a comment before the content of every element, a processing
+    instruction inside its character data (after the first character) and a comment after every child:
+    the witness of the non-vacuity examples of the statements about documents *)
+Fixpoint decorate (e : xnode) : dnode :=
+  match e with
+  | XElt ns n a t k =>
+      DElt ns n a (DComment :: match t with
+                               | Some s => [DText (firstn 1 s); DPI; DText (skipn 1 s)]
+                               | None => []
+                               end ++ flat_map (fun x => [decorate x; DComment]) k)
+  | XOther => DComment
+  end.
